@@ -106,6 +106,37 @@ func genC13(w *bufio.Writer, tier string, rng *rand.Rand) {
 		}
 		emit(nacc, ops)
 	}
+	// 1c. replicas and mirror images: two accumulators of equal count whose data are a permutation of each
+	// other or reflections about a common centre (same mean and spread, different extremes), combined
+	for h := 0; h < pick(tier, 300, 8000); h++ {
+		nn := 2 + rng.Intn(6)
+		c := float64(rng.Intn(9) + 2)
+		var ops []string
+		var xs []float64
+		for i := 0; i < nn; i++ {
+			xs = append(xs, float64(rng.Intn(5)))
+		}
+		mode := rng.Intn(3)
+		for i, x := range xs {
+			ops = append(ops, add(0, x))
+			switch mode {
+			case 0:
+				ops = append(ops, add(1, c-x)) // reflection about c/2
+			case 1:
+				ops = append(ops, add(1, xs[(i+1)%nn])) // rotation
+			default:
+				ops = append(ops, add(1, x+c)) // shifted copy
+			}
+		}
+		if rng.Intn(2) == 0 { // make the means coincide: the reflection of a sample symmetric in the mean
+			ops = append(ops, add(0, c/2), add(1, c/2))
+		}
+		ops = append(ops, read(0), read(1), comb(rng.Intn(2), 0), read(0), read(1))
+		if rng.Intn(2) == 0 {
+			ops = append(ops, comb(0, 1), read(0))
+		}
+		emit(2, ops)
+	}
 	// 2. random histories: trees of merges, self-combine, repeated combine, empties.
 	nh := pick(tier, 4000, 150000)
 	for h := 0; h < nh; h++ {
